@@ -189,6 +189,92 @@ def check_callable(ctx, case):
                                                "stack_innermost_first": stack, "call": shape, "raises": raises})
 
 
+SELF_NAME_SRC = """
+class K{base}:
+    def __init__({me}, v=1):
+        {me}.v = v
+
+    def m({me}, x):
+        LOG.append("m")
+        return (x, {me}.v)
+
+    def only_star(*args):
+        LOG.append("only_star")
+        return len(args)
+
+    @property
+    def p({me}):
+        LOG.append("p")
+        return {me}.v
+
+    @p.setter
+    def p({me}, value):
+        LOG.append("p.set")
+        {me}.v = value
+
+    def __len__({me}):
+        LOG.append("len")
+        return 3
+
+    async def am({me}, x):
+        LOG.append("am")
+        return x
+"""
+
+
+def self_name_cases(ctx, only=None):
+    """Classes whose methods call their first parameter something else than ``self``: with a satisfied invariant the class
+    is used exactly like its bare twin (same results, every body run once), and the invariant is evaluated around the
+    public operations."""
+    import icontract
+
+    for me in ("self", "this", "s", "_"):
+        for how in ("decorated", "dbc", "inherited"):
+            if only and only != [me, how]:
+                continue
+            seen = []
+
+            def inv(self):
+                seen.append("inv")
+                return True
+
+            def build(contracted):
+                g = {"LOG": [], "icontract": icontract}
+                base = "(icontract.DBC)" if contracted and how == "dbc" else "(P)" if contracted and how == "inherited" else ""
+                if contracted and how == "inherited":
+                    g["P"] = icontract.invariant(inv)(type(icontract.DBC)("P", (icontract.DBC,), {}))
+                exec(compile(SELF_NAME_SRC.format(base=base, me=me), "<c14selfname>", "exec"), g)
+                K = g["K"]
+                if contracted and how != "inherited":
+                    K = icontract.invariant(inv)(K)
+                return K, g["LOG"]
+
+            ops = [("construct", lambda K: K(2).v), ("method", lambda K: K(2).m(5)), ("keyword call", lambda K: K(2).m(x=5)),
+                   ("*args-only method", lambda K: K(2).only_star(1, 2)), ("property get", lambda K: K(2).p),
+                   ("property set", lambda K: setattr(K(2), "p", 9)), ("len()", lambda K: len(K(2))),
+                   ("unbound call", lambda K: K.m(K(2), 5)), ("instance by keyword", lambda K: K.m(**{me: K(2), "x": 5})), ("async method", lambda K: RUN.drive(K(2).am(4)))]
+            label = "first parameter named %r (%s)" % (me, how)
+            for oname, fn in ops:
+                outs = []
+                for contracted in (False, True):
+                    K, log = build(contracted)
+                    del seen[:]
+                    try:
+                        o = ("ret", fn(K))
+                    except BaseException as e:  # noqa
+                        o = ("exc", type(e).__name__, str(e)[:120])
+                    outs.append((o, list(log), len(seen)))
+                (o0, l0, _), (o1, l1, n_inv) = outs
+                ctx.case(["self-name", me, how, oname], me != "self", sample={"directed": label, "operation": oname, "outcome": list(o1)})
+                ctx.count("directed:self-name")
+                want_inv = 1 if oname == "construct" else 3
+                if o0 != o1 or l0 != l1 or n_inv < want_inv:
+                    ctx.fail("self-name|%s|%s" % ("self" if me == "self" else "other", oname.split()[0]),
+                             {"part": "self-name", "directed": [me, how]},
+                             "%s, %s: the bare twin gives %r (bodies %r), the class with a satisfied invariant gives %r (bodies "
+                             "%r) with %d invariant evaluations (at least %d expected)" % (label, oname, o0, l0, o1, l1, n_inv, want_inv))
+
+
 def colour_cases(ctx):
     """Foreign functools.wraps decorators that change the colour of the callable (a sync adapter that runs an `async def`
     to completion, an async adapter around a `def`), with satisfied contracts above and/or below them: the stack with
@@ -466,9 +552,15 @@ def run(ctx, tier, seed, shard, nshards):
             check_class(ctx, case)
             ctx.count("directed:diamond-classes")
         colour_cases(ctx)
+        self_name_cases(ctx)
 
 
 def replay(ctx, case):
+    if case.get("part") == "self-name":
+        before = ctx.evaluations
+        self_name_cases(ctx, only=case["directed"])
+        ctx.evaluations = before + 1
+        return
     if case.get("part") == "colour":
         before = ctx.evaluations
         colour_cases(ctx)
